@@ -50,8 +50,8 @@ ASSUMPTIONS = [
     "recorded steps: the draw seeds are a deterministic function (blake2b) of VERIF_SEED and the step's address, the "
     "domain itself is enumerated",
 ]
-SHRINK_SECONDS = 60
-SHRINK_BUDGET = 60
+SHRINK_SECONDS = 10
+SHRINK_BUDGET = 30
 
 
 @contextlib.contextmanager
@@ -528,6 +528,54 @@ class Comparator:
         return 'differ'
 
 
+# ---------------------------------------------------------------- descent to the rewritten sub-term
+def descend(a, b):
+    """Follow the spine on which a and b agree; returns (a', b', extra conditions, extra integer variables) for the
+    single pair of sub-terms that differ.  Equal values of a' and b' at all admissible points imply equal values of
+    a and b (the converse does not hold, so this is only ever used to conclude 'same')."""
+    conds, ivars = [], set()
+    while True:
+        if a.ty != b.ty:
+            break
+        if a.ty in (L.OP, L.FUN):
+            if (a.ty == L.OP and a.op != b.op) or (a.ty == L.FUN and str(a.func_name) != str(b.func_name)) or \
+                    len(a.args) != len(b.args) or (a.ty == L.OP and a.op in L.REL_OPS):
+                break
+            diff = [i for i in range(len(a.args)) if str(a.args[i]) != str(b.args[i])]
+            if len(diff) != 1:
+                break
+            a, b = a.args[diff[0]], b.args[diff[0]]
+        elif a.ty == L.INTEGRAL:
+            if a.var != b.var or str(a.lower) != str(b.lower) or str(a.upper) != str(b.upper):
+                break
+            if a.lower.ty != L.INF:
+                conds.append(expr.Op('>', expr.Var(a.var), a.lower))
+            if a.upper.ty != L.INF:
+                conds.append(expr.Op('<', expr.Var(a.var), a.upper))
+            a, b = a.body, b.body
+        elif a.ty == L.SUMMATION:
+            if a.index_var != b.index_var or str(a.lower) != str(b.lower) or str(a.upper) != str(b.upper):
+                break
+            conds.append(expr.Op('>=', expr.Var(a.index_var), a.lower))
+            if a.upper.ty != L.INF:
+                conds.append(expr.Op('<=', expr.Var(a.index_var), a.upper))
+            ivars.add(str(a.index_var))
+            a, b = a.body, b.body
+        elif a.ty == L.LIMIT:
+            if a.var != b.var or str(a.lim) != str(b.lim) or a.drt != b.drt:
+                break
+            if a.lim.ty == L.INF:
+                conds.append(expr.Op('>' if str(a.lim) == 'oo' else '<', expr.Var(a.var), expr.Const(0)))
+            a, b = a.body, b.body
+        elif a.ty in (L.DERIV, L.INDEFINITEINTEGRAL):
+            if a.var != b.var:
+                break
+            a, b = a.body, b.body
+        else:
+            break
+    return a, b, conds, ivars
+
+
 # ============================================================================================ recorded example files
 def file_list():
     global _FILES
@@ -764,6 +812,16 @@ def run_step_case(case, H, limit_s=6.0):
     res = cmpo.compare(before, after, seeds, explicit_draws=case.get('draws'))
     for r in sorted(set(res.reasons)):
         H.inconc('recorded:' + r.split(':')[0] + (':' + r.split(':')[1] if r.startswith('confirm') and ':' in r else ''))
+    if res.verdict == 'inconclusive' and changed and not antider:
+        # the whole expression cannot be evaluated (oscillatory / principal-value integrals ...): compare the
+        # rewritten sub-term pointwise instead; this can only ever establish 'same'
+        a2, b2, extra, ivars2 = descend(before, after)
+        if a2 is not before and not any(L.contains_ty(t, (L.INDEFINITEINTEGRAL, L.SKOLEMFUNC)) for t in (a2, b2)):
+            sub = Comparator(cmpo.ev.defs, cmpo.conds + extra, {}, cmpo.int_vars | ivars2, limit_s=limit_s)
+            r2 = sub.compare(a2, b2, seeds)
+            if r2.verdict == 'same':
+                res.verdict = 'same'
+                H.note('recorded_same_by_rewritten_subterm')
     if res.verdict == 'differ':
         H.violation('recorded:value-changed:%s' % rname, dict(case, draws=res.draws),
                     '%s step %d of %s[%d].%s: rule %s maps\n  %s\nto\n  %s\n%s' % (
@@ -972,7 +1030,13 @@ def feature_of(rname, e, params, after, env_fr=None, ctx=None, conds=None):
     if rname == 'Substitution':
         it = _first(e, L.INTEGRAL)
         try:
-            return 'g-' + monotone_on(P(params.get('var_subst', '')), str(it.var), it.lower, it.upper, env_fr)
+            g = P(params.get('var_subst', ''))
+            m = monotone_on(g, str(it.var), it.lower, it.upper, env_fr)
+            if m == 'monotone':
+                # a wrong branch of the inverse can only be taken when g is not injective on the whole line
+                wide = monotone_on(g, str(it.var), expr.Const(-7), expr.Const(7), env_fr)
+                m = 'monotone-everywhere' if wide == 'monotone' else 'monotone-on-the-interval-only'
+            return 'g-' + m
         except Exception:
             return 'g-unknown'
     if rname == 'SubstitutionInverse':
@@ -1193,7 +1257,15 @@ def expr_of_tree(t):
         if tag == 'const':
             return expr.Const(Fraction(t[1]) if '/' in t[1] else int(t[1]))
         if tag == 'op':
-            return expr.Op(t[1], *[expr_of_tree(a) for a in t[2:]])
+            args = [expr_of_tree(a) for a in t[2:]]
+            if t[1] == '/' and len(args) == 2 and args[1].ty == L.CONST and args[1].val == 0:
+                raise CaseInvalid('division by the constant 0')
+            # negation and quotients are built the way the calculator's own code builds them (operators of Expr)
+            if t[1] == '-' and len(args) == 1:
+                return -args[0]
+            if t[1] == '/' and len(args) == 2:
+                return args[0] / args[1]
+            return expr.Op(t[1], *args)
         if tag == 'fun':
             return expr.Fun(t[1], *[expr_of_tree(a) for a in t[2:]])
         if tag == 'inf':
@@ -1266,7 +1338,13 @@ def rt_feature(e, back=None):
 
 
 def run_roundtrip_case(case, H):
-    e = expr_of_tree(case.get('tree'))
+    try:
+        e = expr_of_tree(case.get('tree'))
+    except CaseInvalid:
+        if getattr(H, 'exploring', False):
+            H.note('roundtrip_tree_outside_domain')
+            return
+        raise
     ok = check_roundtrip(e, H, case, 'constructed tree')
     H.case(case, nontrivial=e.size() >= 3, klass='roundtrip:%s' % ('ok' if ok else 'fails'))
 
@@ -1274,8 +1352,6 @@ def run_roundtrip_case(case, H):
 # ---------------------------------------------------------------- deriv against mpmath.diff
 def deriv_feature(e, var, ctx, conds):
     def test(t):
-        if var not in L.free_vars(t):
-            return False
         with quiet(), time_limit(10):
             d = rules.deriv(var, copy.deepcopy(t), ctx)
         c = Comparator({}, conds, {}, int_variables([t]), limit_s=2.0)
@@ -1501,6 +1577,14 @@ LIM_INF = ['(2 * x ^ 2 + 1) / (x ^ 2 + x)', 'x * exp(-x)', 'atan(x)', '(1 + 1 / 
            '-exp(-x) + 1', 'x ^ (-1/2)', '2 * atan(x) - 1 / x', '(x ^ 2 + 1) / (x + 1) - x', 'log(1 + 1 / x) * x',
            'exp(1 / x)', 'x ^ (-a)', '1 / (1 + exp(-x))', 'tanh(x)', 'cos(1 / x)', '(1 - 1 / x) ^ x', 'x * log(1 + 2 / x)',
            'x ^ 2 / (x ^ 2 + 1) * atan(x)', '-x * exp(-x) - exp(-x) + 1', 'sqrt(x + 1) - sqrt(x)', 'log(x + 1) - log(x)']
+SPECIAL_FORMS = ['exp(1/2 * log(x ^ 2))', 'exp(log(x ^ 4) / 4)', 'log(x ^ 2)', '(x ^ 2) ^ (1/2)', 'sqrt(x ^ 2)', 'abs(x) / x',
+                 'x / abs(x)', 'sqrt(x) ^ 2', 'log(exp(x))', 'exp(log(x))', 'atan(tan(x))', 'sin(asin(x))', 'tan(atan(x))',
+                 'asin(sin(x))', 'acos(cos(x))', 'sqrt((x - 1) ^ 2)', 'log(x ^ 2) - 2 * log(abs(x))', 'x ^ (1/3) ^ 3', '(x ^ 3) ^ (1/3)',
+                 'sqrt(x ^ 2 * a ^ 2)', 'sqrt(x * a) / sqrt(x)', 'x ^ a * x ^ (-a)', '(x * a) ^ (1/2) / x ^ (1/2)', 'exp(a * log(x))',
+                 'log(x * a) - log(x)', 'log(1 / x)', 'log(x / a)', 'x / x', '(x ^ 2 - 1) / (x - 1)', 'sqrt(x ^ 4)', 'abs(x) ^ 2',
+                 'abs(x ^ 3)', 'abs(-x)', 'sqrt(1 - sin(x) ^ 2)', 'sqrt(1 + tan(x) ^ 2)', 'cos(x) * sec(x)', 'tan(x) * cos(x)',
+                 'acot(tan(x))', 'atan(1 / x) + atan(x)', 'asin(x) + acos(x)', '0 ^ x', 'x ^ 0', '1 ^ x', '(-1) ^ (2 * x)',
+                 '(-8) ^ (1/3)', '(x ^ 2) ^ (1/4)', '((-x) ^ 2) ^ (1/2)', 'sqrt(a ^ 2) * x', 'exp(x) ^ a', 'exp(2 * log(abs(x)))']
 COND_POOL = ['x > 0', 'a > 0', 'x < 1', 'x > -1', 'a < 0', 'x > 1', 'x < 0', 'a > 1', 'b > 0', 'a != 0', 'x != 0']
 RANGES = [('-2', '-1'), ('-1', '2'), ('0', '1'), ('1', '3'), ('0', None), (None, '0'), ('-1', None), ('-3', '3'),
           ('1/2', '2'), (None, '-1'), ('-1', '1'), ('2', '5'), ('-1/2', '1/2'), ('0', 'pi'), ('-pi', 'pi'), ('0', '4')]
@@ -1542,9 +1626,14 @@ def strategies():
 
     @st.composite
     def simp_expr(draw):
-        shape = draw(st.sampled_from(['point', 'point', 'int', 'int-inf', 'sum', 'lim', 'nested']))
+        shape = draw(st.sampled_from(['point', 'point', 'special', 'special', 'int', 'int-inf', 'sum', 'lim', 'nested']))
         if shape == 'point':
             return draw(pointwise())
+        if shape == 'special':
+            sp = draw(st.sampled_from(SPECIAL_FORMS))
+            wrap = draw(st.sampled_from(['%s', '%s', '(%s) + x', '2 * (%s)', '(%s) * a', 'INT x:[-2,-1]. %s', 'INT x:[1/2,2]. %s',
+                                         '(%s) - abs(x)', 'cos(%s)']))
+            return wrap % sp
         if shape == 'int':
             return draw(integral_of(pointwise(leaves=4), fbounds))
         if shape == 'int-inf':
@@ -1613,10 +1702,11 @@ def strategies():
 
     @st.composite
     def c_subst_inv(draw):
-        g = draw(st.sampled_from(INV_POOL))
+        g = draw(st.sampled_from(INV_POOL + ['sqrt(u)', '1 / u', 'sqrt(u)', 'exp(u)', 'u ^ 2']))
         body = draw(st.one_of(pointwise(leaves=3), st.sampled_from(
             ['sqrt(1 - x ^ 2)', '1 / (1 + x ^ 2)', '1 / sqrt(1 - x ^ 2)', 'x * sqrt(x + 1)', 'exp(sqrt(x))', '1 / (x * (1 + x))',
-             'sqrt(4 - x ^ 2)', '1 / (1 + sqrt(x))', 'log(x) / x', 'x ^ 2', '1 / x ^ 2', 'exp(-x)'])))
+             'sqrt(4 - x ^ 2)', '1 / (1 + sqrt(x))', 'log(x) / x', 'x ^ 2', '1 / x ^ 2', 'exp(-x)', '1', 'x', 'cos(x)',
+             '1 / (1 + x ^ 2)', 'exp(-x ^ 2)'])))
         b = draw(bounds)
         return {'kind': 'rule', 'rule': 'SubstitutionInverse', 'e': 'INT x:[%s,%s]. %s' % (b[0], b[1], body),
                 'params': {'var_name': 'u', 'var_subst': g}, 'conds': draw(st.lists(st.sampled_from(['a > 0', 'a < 0']), max_size=1)),
@@ -1928,7 +2018,7 @@ def run_case(case, H):
 
 def shards(tier):
     out = [{'kind': 'file', 'file': name} for name, _ in file_list()]
-    mult = 1 if tier == 'quick' else 30
+    mult = 1 if tier == 'quick' else 15
     for gname in sorted(QUICK_N):
         n = QUICK_N[gname] * mult
         k = max(1, -(-n // (40 if gname not in ('roundtrip', 'bounds') else 150))) if tier == 'quick' else 32
@@ -1964,6 +2054,8 @@ def _run_shard(desc, seed, tier, H):
 
         seen = set()
 
+        H.exploring = True
+
         def body(case):
             key = harness.canon({k: v for k, v in case.items() if k != 'seeds'})
             if key in seen:
@@ -1976,7 +2068,7 @@ def _run_shard(desc, seed, tier, H):
 
 def run_file_shard(desc, seed, tier, H):
     ndraws = 2 if tier == 'quick' else 5
-    limit_s = 4.0 if tier == 'quick' else 30.0
+    limit_s = 4.0 if tier == 'quick' else 15.0
     try:
         lf = load_file(desc['file'])
     except Exception as ex:
